@@ -9,6 +9,10 @@ from .core.readflags import checkpoint_edges, stateful_edges, guarded, place_key
 from .core.taint import Taint
 
 RULES = {
+    "C02.4": "what a peek leaves behind is not acted on elsewhere (= C01.5): Reader::append_block_to_chain, which carries the tail position over into a block that is being "
+             "sealed, does so only when the cursor's tail block IS that block (tail_block_id == block.id), on both of its paths. A carry-over keyed on anything a non-consuming "
+             "read can reach (the chain index having run past the chain after a peek at the end of a block) applies an offset of another block, and later consuming reads skip "
+             "entries - the peek has changed what they return",
     "C02.1": "effect set under the flags (GB + effect summaries over the call graph): in read_next and batch_read_for_topic (and their closures) every store to reader cursor state, "
              "every call that (transitively) mutates the persisted index, the entry counts, the reclamation trackers, sends a deletion request or touches the filesystem must be "
              "dominated by the `checkpoint == true` edge, and in batch_read_for_topic also by an edge on which start_offset is None. Frozen exception classes (position-preserving "
@@ -527,6 +531,15 @@ def run(ctx):
     check_stateless_readonly(ctx, facts)
     check_ni(ctx, facts, "read_next")
     check_ni(ctx, facts, "batch_read_for_topic")
+    # C02.4 = C01.5: the one place outside the read functions where the shared cursor is rewritten
+    before = len(ctx.obligations)
+    from .c01 import check_seal_fold
+    check_seal_fold(ctx, facts)
+    for o in ctx.obligations[before:]:
+        if o["rule"] == "C01.5":
+            o["rule"] = "C02.4"
+            if "key" in o:
+                o["key"] = o["key"].replace("C01.5", "C02.4")
     ctx.assume("observable state = ColReaderInfo fields, WalIndex.store (+ its file), Walrus.topic_entry_counts, BlockState/FileState trackers, deletion channel, filesystem; "
                "creating an empty default ColReaderInfo for an unknown topic is position-neutral and not counted")
     ctx.assume("C02.3 tracks locals only: flows through memory written under `checkpoint` and read back in the same call are not followed")
